@@ -79,6 +79,8 @@ def compare(V, behs, seeds, what, ctor=None, run=None, tags_of=None):
 
 def run(tier, seed):
     t0 = time.time()
+    import os
+    os.environ[C.GUARD] = "1"        # before any worker imports the library: the Apply events are recorded in step 3
     rnd = random.Random(seed)
     V = C.Verdict(PID)
     cov = {}
@@ -87,7 +89,8 @@ def run(tier, seed):
 
     # ---- 1. exhaustive model checking of the contract -----------------------------------------------------------
     mcs = [("4 tables, 3 stmts, 2x2 spellings", consts(Spells=S4)),
-           ("2 tables, 4 stmts", consts(Universe=U2, MaxStmts=4, Spells=SS)),
+           ("2 tables, 4 stmts, 7 kinds", consts(Universe=U2, MaxStmts=4, Spells=SS, Kinds='{"addcol","drop","rename","modify","unique","fk","index"}')
+            if not thorough else consts(Universe=U2, MaxStmts=4, Spells=SS)),
            ("1 table, 4 stmts, column spellings, named constraints", consts(Universe=U1, MaxCreates=1, MaxStmts=4, Spells=SS,
                                                                            ColSpells='{"same","other"}', CNames='{"","k1"}'))]
     if thorough:
@@ -125,6 +128,7 @@ def run(tier, seed):
     cov["generation"] = []
     total = uniq = 0
     sample = None
+    last_routing = []
     for what, cs in gens:
         g = mc(cs, "generation " + what, timeout=1500)
         print(f"  gen {what}: {len(g.beh)} behaviours, TLC {g.wall:.1f}s", flush=True)
@@ -136,6 +140,8 @@ def run(tier, seed):
             b = g.beh[len(g.beh) // 2]
             sample = {"abstract": b["hist"], "ddl": R.render(b["hist"], seeds[0])[0], "expected": R.expected(b, R.render(b["hist"], seeds[0])[1])}
         # modes: the routing must not depend on the output mode (bigquery renames schema -> dataset)
+        if what in ("routing", "effects"):
+            last_routing = last_routing + g.beh
         if what == "routing":
             sub = g.beh if thorough else rnd.sample(g.beh, min(len(g.beh), 1500))
             for m in ("bigquery", "mssql", "hql"):
@@ -144,6 +150,32 @@ def run(tier, seed):
                 uniq += nu2
             n2, nu2, _ = compare(V, sub, seeds[:1], f"{what}/normalize_names", ctor={"normalize_names": True}) if False else (0, 0, 0)
 
+    # ---- 3. code -> spec: the library's own `Apply` events (one per statement result) validated by TLC against TraceRegistry.tla --------
+    import os
+    os.environ[C.GUARD] = "1"
+    from .. import corpus as CP
+    from .. import trace_reg as TR
+    corp = CP.harvest()
+    scripts = [(r["text"], r["ctor"], {}) for r in corp]
+    gsel = [b for b in last_routing if b["hist"]]
+    gsel = gsel if thorough else rnd.sample(gsel, min(len(gsel), 1200))
+    scripts += [(R.render(b["hist"], seeds[0])[0], {}, {"output_mode": m}) for i, b in enumerate(gsel) for m in (("sql",) if i % 4 else ("bigquery",))]
+    traces = TR.record(scripts)
+    nacc, rej, rt = TR.validate(traces)
+    for i, line in rej:
+        V.mismatch({"what": "recorded execution rejected by spec/TraceRegistry.tla (OnlyTarget / OrderKept on the library's Apply events)",
+                    "ddl": scripts[i][0][:1200], "run": scripts[i][2], "event": traces[i][line - 1] if line else None,
+                    "previous": traces[i][line - 2] if line and line > 1 else None}, paths=["trace"])
+    import copy
+    bad = copy.deepcopy(next(t for t in traces if any(e["kind"] == "alter" for e in t)))
+    j = next(k for k, e in enumerate(bad) if e["kind"] == "alter")
+    bad[j]["n"] += 1
+    if not TR.validate([bad])[1]:
+        raise C.MachineryError("trace validation accepted a corrupted Apply trace: the binding is vacuous")
+    states += rt.distinct if rt else 0
+    trans += rt.generated if rt else 0
+    total += nacc
+    cov["apply_traces"] = {"scripts": len(scripts), "events": sum(len(t) for t in traces), "accepted": nacc, "rejected": len(rej), "corrupted_trace_rejected": True}
     rc = V.finish()
     cov.update({"states": states, "transitions": trans, "traces_validated_against_impl": total,
                 "distinct_real_parses": uniq, "seeds": seeds, "samples": [sample], "exhaustive": True})
